@@ -131,7 +131,7 @@ def _spikes_venn(
         sample_offset = ch * chunk_size
         spike_indices = [
             slice(
-                *np.searchsorted(samples, [sample_offset, sample_offset + chunk_size])
+                *np.searchsorted(samples, [sample_offset, (ch + 1) * chunk_size])
             )
             for samples in samples_tuple
         ]
